@@ -17,6 +17,10 @@ func init() {
 	addMutant(Mutant{Name: "let-no-semicolon", Prop: "C18", File: "parser/parser.go",
 		Old: "	stmt.Value = p.parseExpression(LOWEST)\n\n	if p.peekTokenIs(token.SEMICOLON) {\n		p.nextToken()\n	}\n\n	return stmt",
 		New: "	stmt.Value = p.parseExpression(LOWEST)\n\n	return stmt", Expect: "R5"})
+	addMutant(Mutant{Name: "blank-statements-kept", Prop: "C18", File: "parser/parser.go",
+		Old: "		if stmt != nil && strings.TrimSpace(stmt.String()) != \"\" {", New: "		if stmt != nil && stmt.String() != \"\" {", Expect: "R3"})
+	addMutant(Mutant{Name: "blank-test-on-other-statement", Prop: "C18", File: "parser/parser.go",
+		Old: "		if stmt != nil && strings.TrimSpace(stmt.String()) != \"\" {", New: "		if stmt != nil && (len(program.Statements) == 0 || strings.TrimSpace(program.Statements[0].String()) != \"\") {", Expect: "R3"})
 	addMutant(Mutant{Name: "equiv-ws-helper", Prop: "C18", File: "lexer/lexer.go", Equivalent: true,
 		Old: "for l.ch == ' ' || l.ch == '\\t' || l.ch == '\\n' || l.ch == '\\r' {", New: "for isSpace(l.ch) {",
 		Edits: []Edit{{"lexer/lexer.go", "func isDot(ch byte) bool {", "func isSpace(ch byte) bool {\n	return ch == '\\r' || ch == '\\n' || ch == ' ' || ch == '\\t'\n}\n\nfunc isDot(ch byte) bool {"}}})
